@@ -659,6 +659,11 @@ func (server *SugarDB) evictKeysWithExpiredTTL(ctx context.Context) error {
 	server.storeLock.Lock()
 	defer server.storeLock.Unlock()
 	for _, k := range keys {
+		// Only keys whose expiry time has passed are evicted.
+		entry, ok := server.store[database][k]
+		if !ok || entry.ExpireAt == (time.Time{}) || !entry.ExpireAt.Before(server.clock.Now()) {
+			continue
+		}
 		// Delete the expired key
 		deletedCount += 1
 		if !server.isInCluster() {
